@@ -451,6 +451,42 @@ def bounded(b):
             got = sorted((round(float(r["onset_beat"]), 4), round(float(r["duration_beat"]), 4), int(r["pitch"]), str(r["step"]), int(r["alter"]), int(r["octave"])) for r in back)
             want = sorted((o, d, p, st, al, oc) for (o, d, p, st, al, oc) in spelled)
             b.case("inverse/note_array_to_score_and_back_same_onsets_durations_pitches", got == want, case, "round trip %r, expected %r" % (got, want))
+    # arrays with grace notes (rows of duration zero) in front of their main notes, voices numbered from 0 and from 1
+    grows = [(0, 4, 72, 0), (4, 0, 76, 0), (4, 4, 74, 0), (8, 8, 76, 0), (16, 0, 79, 0), (16, 0, 81, 0), (16, 8, 77, 0), (24, 8, 76, 0),
+             (0, 8, 48, 1), (8, 0, 50, 1), (8, 8, 52, 1), (16, 16, 55, 1)]
+    for vbase in (0, 1):
+        for with_ts in (False, True):
+            dt = [("onset_beat", "f4"), ("duration_beat", "f4"), ("onset_div", "i4"), ("duration_div", "i4"), ("pitch", "i4"), ("voice", "i4")]
+            if with_ts:
+                dt += [("ts_beats", "i4"), ("ts_beat_type", "i4")]
+            na = np.array([(o / 4.0, d / 4.0, o, d, p, v + vbase) + ((4, 4) if with_ts else ()) for (o, d, p, v) in grows], dtype=dt)
+            case = {"inverse": "both", "grace_notes": True, "lowest_voice_number": vbase, "time_signature_columns": with_ts}
+            ok, score = b.guard("inverse/no_exception", case, lambda: note_array_to_score(na))
+            if ok:
+                back = score.note_array(include_grace_notes=True) if hasattr(score, "note_array") else score[0].note_array(include_grace_notes=True)
+                got = sorted((int(r["onset_div"]), int(r["duration_div"]), int(r["pitch"])) for r in back)
+                want = sorted((o, d, p) for (o, d, p, _) in grows)
+                scale = (got[-1][0] / want[-1][0]) if got and want[-1][0] else 1
+                same = len(got) == len(want) and [(round(a_ / scale), round(d_ / scale), p_) for a_, d_, p_ in got] == want
+                b.case("inverse/note_array_to_score_and_back_same_onsets_durations_pitches", same, case, "round trip %r, expected %r" % (got, want))
+    # a note array read, the notes respelled or moved by an octave, the note array read again: the pitch column follows the notes
+    for name, mk in parts[:4]:
+        part = mk()
+        case = {"part": name, "note_array_read_then_notes_respelled_then_read_again": True}
+        ok, _ = b.guard("note_array/no_exception", case, lambda: part.note_array(include_pitch_spelling=True))
+        if not ok:
+            continue
+        for k, n in enumerate(part.iter_all(sc.Note, include_subclasses=True)):
+            if k % 3 == 0:
+                n.alter = (n.alter or 0) + 1
+            elif k % 3 == 1:
+                n.octave = n.octave + 1
+            else:
+                n.step = {"C": "D", "D": "E", "E": "F", "F": "G", "G": "A", "A": "B", "B": "C"}[n.step]
+        opts = {"include_pitch_spelling": True}
+        ok, na = b.guard("note_array/no_exception", case, lambda: part.note_array(**opts))
+        if ok:
+            _compare(b, "note_array/one_row_per_sounding_note_every_column_as_the_score_states", case, na, _expected_rows(part, opts))
     _inverse_from_parts(b)
 
 
